@@ -106,6 +106,8 @@ def make_replayer():
             want = ['sum-value']
         if ob.kind.startswith('minmax-') or ob.kind.startswith('max-'):
             want = ['minmax-accepts']
+        if ob.kind.startswith('value-'):
+            want = ['binop-value', 'sum-value', 'index-value', 'value-none']
         if ob.kind.startswith('dot-'):
             want = ['dot-accepts']
         if ob.kind.startswith('operator-'):
@@ -194,6 +196,16 @@ def run(report, tier, seed):
                           detail=o.get('detail'), meta={'line': o['line']}))
         if 'modeling.py:dot' not in report.functions:
             report.functions.append('modeling.py:dot')
+    except KeyError as e:
+        report.error('function under contract no longer exists: %s' % e)
+    try:
+        for o in function_index_spec.value_obligations(
+                10000 if tier == 'quick' else 60000):
+            report.add(Ob(o['id'], o['kind'], o['status'], o['text'],
+                          'modeling.py line %s' % o['line'], by=o['by'],
+                          detail=o.get('detail'), meta={'line': o['line']}))
+        if 'modeling.py:_function.value' not in report.functions:
+            report.functions.append('modeling.py:_function.value')
     except KeyError as e:
         report.error('function under contract no longer exists: %s' % e)
     from contracts.py import keytolist_spec
